@@ -1,7 +1,9 @@
 """C09 check configuration."""
 PROP = {
         "props_files": ["Props/C09.v"],
-        "jobs": [{"component": "codec", "comp_num": 9, "quick": 4000, "thorough": 400000}],
+        "jobs": [{"component": "codec", "comp_num": 9, "quick": 4000, "thorough": 400000},
+                 # the dispatcher's use of the codec: which variant (with/without ids) it emits to a version 2 / 3 peer
+                 {"component": "endpoint", "comp_num": 7, "quick": 800, "thorough": 40000, "timeout": 3000}],
         "design_ref": "DESIGN.md section 5, C09",
         "level_text": "Theorems (Coq, closed under the global context) on a Gallina transcription of MultiplexMsg::{write,read}, "
                       "ExchangedCfg::{write,read} and the length-prefixed framing: encoder = version-3 table layout for every "
@@ -11,7 +13,7 @@ PROP = {
                       "by feeding the table's bytes to the real decoder, and by the handshake of a real endpoint.",
         "level_note": "Trusted: Coq kernel (+vm_compute), translator, extraction (ExtrOcamlBasic only) and mrun glue (cross-checked in-kernel on a "
                       "sample), harness and hook H2; LengthDelimitedCodec and the dispatcher's use of the codec are modelled and sampled, not verified; "
-                      "the Mux-level statements (no ids to old peers, payload frame follows Data) belong to the dispatcher model.",
+                      "the Mux-level statements (no ids to old peers, payload frame follows Data) are proved on the dispatcher model and tied to the code by the endpoint differential.",
         "phase2": "spec3_decode",
         # for the codec the disagreeing message is itself the failing input: the model provably has the
         # version-3 layout, so bytes that differ from the model's differ from the layout
@@ -21,7 +23,10 @@ PROP = {
                 "field values, mismatched id lists), decode of the implementation's own encodings, of mutated encodings "
                 "(truncated, tail bytes, flag byte, code byte, bit flip, unknown flag bits, partial port/id) and of random "
                 "bytes, LengthDelimitedCodec frame/deframe, handshake bytes of a real endpoint, max_frame_length; a case is "
-                "non-trivial unless it is a field-less message or an unknown-code/empty rejection; distinct = distinct input",
+                "non-trivial unless it is a field-less message or an unknown-code/empty rejection; distinct = distinct input. "
+                "endpoint stream (shared with C07/C08/C10/C11): ONE real endpoint whose peer is the harness announcing version 2 or 3; local connects, "
+                "port batches sent over a port (Sender::connect) and peer requests/batches with and without ids; every emitted message is compared "
+                "with the dispatcher model (Mux.with_ids decides the variant) and an oracle flags any id sent to a version-2 peer",
         "assumptions": [
             "hook H2 exposes MultiplexMsg::{to_vec,read} unchanged",
             "tokio_util LengthDelimitedCodec is modelled by frame/deframe and sampled, not verified",
